@@ -1271,6 +1271,8 @@ def value_attr(it, obj, attr):
             return getattr(obj, attr)
         if attr in obj._d:
             return obj._d[attr]
+        if attr == "_fields" and not obj._d.get("__class__") and not obj._d.get("__super__"):
+            return tuple(obj._fields)                         # a namedtuple row (itertuples): its field names
         if attr == "index" and not obj._d.get("__class__") and not obj._d.get("__super__"):
             return ColList(f_ for f_ in obj._fields)         # a table row (pd.Series): its index is the column names
         if obj._d.get("__super__"):
@@ -1706,7 +1708,9 @@ def vec_method(it, obj, name, args, kw):
             f = f.d
         if isinstance(f, dict):
             return lift1(lambda x: f.get(x, None), obj)
-        return Vec(ai.CTX.per_class(i, lambda x=x: it.call(f, [x], {})) for i, x in enumerate(obj.v))
+        r = Vec((ai.CTX.per_class(i, lambda x=x: it.call(f, [x], {})) for i, x in enumerate(obj.v)), fresh=obj.fresh, aligned=obj.aligned)
+        r.exact, r.labels = obj.exact, obj.labels          # element-wise: same rows under the same labels
+        return r
     if name == "items":
         if obj.labels is not None and len(obj.labels) == len(obj.v):
             return list(zip(obj.labels, obj.v))
@@ -1773,6 +1777,22 @@ def vec_method(it, obj, name, args, kw):
         r = Vec(out, fresh=obj.fresh, aligned=obj.aligned)
         r.exact = True
         return r
+    if name == "sort_values" and not args and set(kw) <= {"kind", "ascending"} and kw.get("ascending", True) is True and obj.v \
+            and (obj.labels is not None or obj.aligned is True or obj.fresh):
+        # a literal Series of mutually comparable values under literal labels: stable sort, every value keeps its label
+        def plain(x):
+            return isinstance(x, (str, int, Fr)) and not isinstance(x, bool) or (isinstance(x, tuple) and all(plain(y) for y in x))
+        vals = [int(T(x).cval()) if isinstance(x, Term) and x.is_const() and x.cval().denominator == 1 else x for x in obj.v]
+        if all(plain(x) for x in vals):
+            labels = list(obj.labels) if obj.labels is not None else list(range(len(vals)))
+            try:
+                order = sorted(range(len(vals)), key=lambda i: vals[i])
+            except TypeError:
+                order = None
+            if order is not None:
+                r = Vec([obj.v[i] for i in order], aligned="any")
+                r.exact, r.labels = True, [labels[i] for i in order]
+                return r
     if name in ("cumsum", "cummax", "cummin", "diff", "shift", "rolling", "sort_values", "argsort", "rank", "searchsorted",
                 "groupby", "ewm", "expanding", "cumprod", "sample", "nlargest", "nsmallest", "corr"):
         return Opaque(f"mixed:{name}")
@@ -1845,11 +1865,15 @@ def df_method(it, obj, name, args, kw):
         else:
             d.labels = None
         return d
-    if name == "reindex" and isinstance(kw.get("index"), IndexVals) and kw["index"].labels is not None and obj.labels is not None and obj.exact and len(kw) == 1 and not args:
+    if name == "reindex" and len(args) == 1 and not kw and isinstance(args[0], IndexVals):
+        args, kw = [], {"index": args[0]}                    # reindex(labels): the row labels, positionally
+    if name == "reindex" and isinstance(kw.get("index"), IndexVals) and kw["index"].labels is not None and obj.exact and len(kw) == 1 and not args \
+            and (obj.labels is not None or obj.index == "range"):
         # rows looked up by label; a label the table does not have gives a row of missing values (duplicated labels refuse)
-        if len(set(obj.labels)) != len(obj.labels):
+        own = list(obj.labels) if obj.labels is not None else list(range(obj.n))
+        if len(set(own)) != len(own):
             raise Raised("ValueError", "cannot reindex on an axis with duplicate labels")
-        pos = [obj.labels.index(l) if l in obj.labels else None for l in kw["index"].labels]
+        pos = [own.index(l) if l in own else None for l in kw["index"].labels]
         d = DF({c: Vec([v.v[i] if i is not None else None for i in pos], aligned=True) for c, v in obj.cols.items()}, len(pos), "any")
         d.exact, d.labels = True, list(kw["index"].labels)
         return d
@@ -1887,6 +1911,7 @@ def df_method(it, obj, name, args, kw):
                 rows.append(Row(dict({"Index": i}, **d), ["Index"] + fields))
             else:
                 rows.append(Row(d, fields))
+            rows[-1].__dict__["_exact"] = bool(getattr(obj, "exact", False))
         return rows
     if name == "iterrows":
         fields = [c for c in obj.cols if not c.startswith("__")]
@@ -2001,6 +2026,8 @@ def df_method(it, obj, name, args, kw):
         return obj.cols.get(args[0], args[1] if len(args) > 1 else None)
     if name == "head":
         return obj
+    if name == "reindex":
+        raise Undecided(f"DataFrame method reindex(args={[type(a).__name__ + ':' + repr(getattr(a, 'labels', None)) for a in args]}, kw={list(kw)}) on exact={obj.exact} labels={obj.labels} index={obj.index}")
     raise Undecided(f"DataFrame method {name}")
 
 
@@ -2577,4 +2604,9 @@ def frame_from_records(it, args, kw):
         for c, v in zip(cols, vals):
             data[c].append(v)
     out = DF({c: Vec(v, aligned=True) for c, v in data.items()}, len(rows))
+    # records that are, each, one literal row of a literal table: the frame is literally these rows
+    out.exact = bool(rows) and all(isinstance(r, Row) and r.__dict__.get("_exact") for r in rows)
+    if out.exact:
+        for v in out.cols.values():
+            v.exact = True
     return out
